@@ -1859,6 +1859,10 @@ class Run:
         o = e["obj"]
         names = self.U["scal"][e["cls"]]
         was = {an: OS.loaded(o, an) for an in names}
+        hist = self.m["inspect"](o).attrs
+        for an in names:
+            if not was[an][0] and hist[an].history.has_changes():
+                was[an] = (True, None)       # removed with 'del obj.attr': a pending change whose value is None, not an expired attribute
         if not self.cfg.get("autoflush", True) and (self.session.new or self.session.dirty or self.session.deleted) and \
                 not all(w[0] for w in was.values()):
             pass        # a load without autoflush: the row the transaction sees is still the right answer for unloaded attributes
